@@ -61,7 +61,9 @@ HERE = os.path.dirname(os.path.dirname(os.path.dirname(os.path.abspath(__file__)
 
 ROTS = ["I", "x90", "y90", "z90", "generic"]
 PAIRS = [("RB", "RB"), ("RB", "PM"), ("PM", "RB"), ("PM", "PM"), ("FRfix", "RB"), ("FRmov", "RB"), ("RB", "FRmov"), ("FRmov", "PM")]
-SEPS = {"ex": (1.4, 0.0, 0.0), "ez": (0.0, 0.0, 1.2), "generic": (1.0, 0.5, -0.7)}
+# initial separations exactly along every signed coordinate axis (degenerate corner of the reference-basis choice; seeded C06-e)
+SEPS = {"ex": (1.4, 0.0, 0.0), "ez": (0.0, 0.0, 1.2), "generic": (1.0, 0.5, -0.7), "-ex": (-1.4, 0.0, 0.0), "ey": (0.0, 1.3, 0.0), "-ey": (0.0, -1.3, 0.0), "-ez": (0.0, 0.0, -1.2)}
+SEPS_NEW = ("-ex", "ey", "-ey", "-ez")
 
 
 def cases(tier, seed):
@@ -79,6 +81,8 @@ def cases(tier, seed):
     # ---------------- sphere - sphere
     for pair, radii, mu, sep, rest in itertools.product(PAIRS, ((0.5, 0.5), (0.2, 0.8)), (0.0, 0.5), list(SEPS), rests):
         if tier == "quick" and rest == "default" and sep != "generic":
+            continue
+        if tier == "quick" and sep in SEPS_NEW and radii != (0.5, 0.5):
             continue
         out.append({"contact": "s2s", "pair": list(pair), "radii": list(radii), "mu": mu, "sep": sep, "rest": rest,
                     "tier": tier, "seed": seed})
